@@ -1,7 +1,10 @@
 """C17 bounded monitor, part 2 (forced interleavings, deterministic): a second thread changes the registration of a custom
 type (unregister + register with other functions) exactly while the first thread is inside that type's flatten function
 (window forced with threading.Event inside the callback), for tree_flatten / tree_flatten_with_path / tree_iter /
-tree_map / tree_structure.  Clause: "a flatten that overlaps a registry change observes, for each node, either the old or the
+tree_map / tree_structure; and (part 3) a second operation - in another thread, or re-entrantly in the same thread - runs
+on instances of a namedtuple class exactly while the first operation is inside its *first classification* of that class (the
+window is forced from a Python-level metaclass __getattribute__ on `_fields` / `_make` / `_asdict`): both operations must
+return what they return when run alone.  Clause: "a flatten that overlaps a registry change observes, for each node, either the old or the
 new registration - never a torn one": the treespec obtained must unflatten with the unflatten function that belongs to the
 flatten function that produced the children.  The schedule space is NOT enumerated: one forced schedule per case."""
 from ocv.bounded._extra import run_core
@@ -16,13 +19,66 @@ class Box:
     def __eq__(self, o): return type(o) is Box and o.c == self.c
     def __repr__(self): return f'Box{tuple(self.c)!r}'
 
+import collections
+_counter = [0]
+
+def first_classification(spec):
+    _, attr, how, opname = spec
+    state = {'armed': False, 'fired': False}
+    out = {}
+    def op(x):
+        if opname == 'tree_leaves': return optree.tree_leaves(x)
+        if opname == 'tree_structure': return repr(optree.tree_structure(x))
+        if opname == 'is_namedtuple': return optree.is_namedtuple(x)
+        if opname == 'tree_flatten_with_path': return optree.tree_flatten_with_path(x)[:2]
+        return optree.tree_map(lambda v: v + 1, x)
+    class Meta(type):
+        def __getattribute__(cls, name):
+            if state['armed'] and not state['fired'] and name == attr:
+                state['fired'] = True
+                other = [cls(5, 6), {'k': cls(7, 8)}]
+                def second():
+                    try: out['second'] = op(other)
+                    except BaseException as e: out['second'] = ('exc', type(e).__name__)   # noqa: BLE001
+                if how == 'thread':
+                    t = threading.Thread(target=second, daemon=True); t.start(); t.join(10)
+                    if t.is_alive(): out['second'] = ('hang',)
+                else:
+                    second()
+                out['second_alone_args'] = other
+            return super().__getattribute__(name)
+    _counter[0] += 1
+    base = collections.namedtuple(f'Point{_counter[0]}', ['x', 'y'])
+    Point = Meta(f'Point{_counter[0]}', (base,), {'__slots__': ()})     # a class the library has never seen
+    tree = {'p': Point(1, 2), 'q': [Point(3, 4)]}
+    state['armed'] = True
+    try: out['first'] = op(tree)
+    except BaseException as e: out['first'] = ('exc', type(e).__name__)   # noqa: BLE001
+    state['armed'] = False
+    bad = []
+    if not state['fired']:
+        return bad                # the library did not look this attribute up while classifying: no window to force
+    alone_first = op(tree)
+    alone_second = op(out['second_alone_args'])
+    if out['first'] != alone_first:
+        bad.append(('C17.first_classification_window', f'{opname} interrupted at its first lookup of {attr} ({how}) returned {out["first"]!r}; run alone it returns {alone_first!r}'))
+    if out.get('second') != alone_second:
+        bad.append(('C17.first_classification_window', f'{opname} run ({how}) while another {opname} was inside its first classification of the class (lookup of {attr}) returned {out.get("second")!r}; run alone it returns {alone_second!r}'))
+    return bad
+
 def cases(tier):
+    for attr in ('_fields', '_make', '_asdict'):
+        for how in ('thread', 'reentrant'):
+            for opname in ('tree_leaves', 'tree_structure', 'is_namedtuple', 'tree_flatten_with_path', 'tree_map'):
+                yield ('first', attr, how, opname)
     for entry in ('tree_flatten', 'tree_flatten_with_path', 'tree_structure', 'tree_map', 'tree_flatten_with_accessor'):
         for nil in (False, True):
             for position in (0, 1):
                 yield (entry, nil, position)
 
 def check(spec):
+    if spec[0] == 'first':
+        return first_classification(spec)
     entry, nil, position = spec
     inside, resume = threading.Event(), threading.Event()
     log = []
@@ -82,6 +138,7 @@ def check(spec):
 
 def run(tier, seed):
     return run_core('c17_extra', CORE, tier, exhaustive=False,
-                    scope='5 entry points x none_is_leaf x position of the node whose flatten function is interrupted; ONE forced schedule each '
+                    scope='3 class attributes x {second thread, re-entrant call} x 5 operations at the first classification of a namedtuple class; '
+                          '5 entry points x none_is_leaf x position of the node whose flatten function is interrupted; ONE forced schedule each '
                           '(re-registration strictly inside the flatten callback)',
                     rule='one evaluation = one forced two-thread schedule; the schedule space is sampled, not enumerated')
